@@ -617,7 +617,7 @@ static void engine_op(int argc, char **argv)
     obs("ret=%d", r); dump(); return;
   }
   /* ---- SIGWINCH observers: the main terminal (`tobs`) and the further ones (`xnew`, `xobs`, `xref`, `xunref`), and
-   * the signal itself (`winch`).  A walk of the observer list that never ends is cut short by the alarm. */
+   * the signal itself (`winch`).  A walk of the observer list that never ends is cut short by the alarm (0.3 s). */
   if(strcmp(op, "xnew") == 0) {
     if(nX >= MAXX) { obs("skip"); dump(); return; }
     X[nX] = tickit_term_build(&(struct TickitTermBuilder){ .termtype = "xterm", .output_func = outf }); Xref[nX] = 1; nX++;
@@ -631,7 +631,7 @@ static void engine_op(int argc, char **argv)
   if(strcmp(op, "xunref") == 0 && argc == 2) {
     int i = A(1);
     if(!heldx(i)) { obs("skip"); dump(); return; }
-    alarm(3);
+    ualarm(300000, 0);
     Xref[i]--; tickit_term_unref(X[i]);
     alarm(60);
     obs("ok h=%d", winch_handled()); dump(); return;
@@ -639,13 +639,13 @@ static void engine_op(int argc, char **argv)
   if((strcmp(op, "xobs") == 0 && argc == 3) || (strcmp(op, "tobs") == 0 && argc == 2)) {
     int isx = op[0] == 'x', i = isx ? A(1) : -1;
     if(isx ? !heldx(i) : !heldt()) { obs("skip"); dump(); return; }
-    alarm(3);
+    ualarm(300000, 0);
     tickit_term_observe_sigwinch(isx ? X[i] : tt, A(isx ? 2 : 1) != 0);
     alarm(60);
     obs("ok h=%d", winch_handled()); dump(); return;
   }
   if(strcmp(op, "winch") == 0) {
-    alarm(3);
+    ualarm(300000, 0);
     raise(SIGWINCH);
     alarm(60);
     obs("ok h=%d", winch_handled()); dump(); return;
